@@ -190,6 +190,20 @@ CHECKS = {
         "Hypothesis call-script generation on real threads; thread-identity / relay / exactly-once / FIFO oracles",
         "DESIGN.md 4/C20",
     ),
+    "C11": (
+        "fault_enumeration",
+        "Gateway + AshProtocol on a virtual clock against a scripted peer: all 256 RSTACK codes x {in time, before the "
+        "request, after the 5 s timeout, twice} x {reset(), wait_for_startup_reset()}; all 64 prior-traffic counter states; "
+        "ERROR frames with every error code; connection_lost(exc) / connection_lost(None) / EOF at several instants, also "
+        "after a non-software RSTACK and with a second reset() pending; plus Hypothesis schedules of up to 4 reactions. "
+        "Checked: request bytes are exactly 1A C0 38 BC 7E at the request instant; completion iff RSTACK(0x0B) arrives after "
+        "the request and before 5 s, else TimeoutError (reset) / still pending (start-up waiter) / the connection error; every "
+        "other RSTACK code and every ERROR yields exactly one enter_failed_state(code); afterwards the next host DATA has "
+        "frmNum 0/ackNum 0 and a peer DATA 0 is accepted; no waiter survives a connection loss.",
+        "A send in flight at handshake time is generated and reported as an observation only (outside the stated quantifier).",
+        "fault enumeration over codes, arrival instants, counter states and loss points + Hypothesis schedules on a virtual clock",
+        "DESIGN.md 4/C11",
+    ),
 }
 
 NOT_YET = "check not built yet in this session (planned, see DESIGN.md section 4)"
